@@ -8,6 +8,10 @@
  T8 every `return <expr>` via a local (`_r = <expr>; return _r`)
  T9 every store of a call result into a field/element via a local (`_t = f(); self.x[k] = _t`)
  T10 T7+T8+T9 combined
+ T11 `x += e` written `x = x + e` (names and self attributes)      T12 `if a and b: X` (no else) written as nested ifs
+ T13 `if c: ...; return` followed by the rest -> the rest moved into `else:`
+ T14 every non-trivial `if` test via a local (`_c = <test>; if _c:`)
+ T15 every `await f(...)` via a local (`_a = f(...); await _a`)      T16 T11..T15 combined
 """
 import ast, os, shutil, subprocess, sys, tempfile
 sys.path.insert(0, os.path.dirname(os.path.dirname(os.path.abspath(__file__))))
@@ -115,6 +119,62 @@ class StoreViaLocal(_Blocks):
         return [st]
 
 
+class AugExpand(ast.NodeTransformer):
+    def visit_AugAssign(self, node):
+        t = node.target
+        if isinstance(t, ast.Name) or (isinstance(t, ast.Attribute) and isinstance(t.value, ast.Name) and t.value.id == "self"):
+            import copy
+            load = copy.deepcopy(t)
+            load.ctx = ast.Load()
+            return ast.Assign(targets=[t], value=ast.BinOp(left=load, op=node.op, right=node.value))
+        return node
+
+
+class SplitAnd(ast.NodeTransformer):
+    def visit_If(self, node):
+        self.generic_visit(node)
+        if not node.orelse and isinstance(node.test, ast.BoolOp) and isinstance(node.test.op, ast.And) and len(node.test.values) == 2:
+            a, b = node.test.values
+            return ast.If(test=a, body=[ast.If(test=b, body=node.body, orelse=[])], orelse=[])
+        return node
+
+
+class ElseAfterReturn(_Blocks):
+    def generic_visit(self, node):
+        ast.NodeTransformer.generic_visit(self, node)
+        for fld in ("body", "orelse", "finalbody"):
+            b = getattr(node, fld, None)
+            if isinstance(b, list) and b and isinstance(b[0], ast.stmt) and not isinstance(node, (ast.Module, ast.ClassDef)):
+                for i, st in enumerate(b):
+                    if isinstance(st, ast.If) and not st.orelse and st.body and isinstance(st.body[-1], (ast.Return, ast.Raise)) and b[i + 1:]:
+                        rest = b[i + 1:]
+                        if any(isinstance(x, (ast.FunctionDef, ast.AsyncFunctionDef)) for x in rest):
+                            break
+                        st.orelse = rest
+                        setattr(node, fld, b[:i + 1])
+                        break
+        return node
+
+
+class TestViaLocal(_Blocks):
+    def rewrite(self, st, n):
+        if isinstance(st, ast.If) and not isinstance(st.test, (ast.Name, ast.Constant)) and not any(isinstance(x, (ast.NamedExpr, ast.Await)) for x in ast.walk(st.test)):
+            nm = f"_c{n}"
+            return [ast.Assign(targets=[ast.Name(id=nm, ctx=ast.Store())], value=st.test), ast.If(test=ast.Name(id=nm, ctx=ast.Load()), body=st.body, orelse=st.orelse)]
+        return [st]
+
+
+class AwaitViaLocal(_Blocks):
+    def rewrite(self, st, n):
+        v = st.value if isinstance(st, (ast.Expr, ast.Assign, ast.Return)) else None
+        if isinstance(v, ast.Await) and isinstance(v.value, ast.Call):
+            nm = f"_a{n}"
+            pre = ast.Assign(targets=[ast.Name(id=nm, ctx=ast.Store())], value=v.value)
+            v.value = ast.Name(id=nm, ctx=ast.Load())
+            return [pre, st]
+        return [st]
+
+
 def transform(root, which):
     for p in files(root):
         src = open(p).read()
@@ -133,6 +193,16 @@ def transform(root, which):
             tree = ReturnViaLocal().visit(tree)
         if which in ("T9", "T10"):
             tree = StoreViaLocal().visit(tree)
+        if which in ("T11", "T16"):
+            tree = AugExpand().visit(tree)
+        if which in ("T12", "T16"):
+            tree = SplitAnd().visit(tree)
+        if which in ("T13", "T16"):
+            tree = ElseAfterReturn().visit(tree)
+        if which in ("T14", "T16"):
+            tree = TestViaLocal().visit(tree)
+        if which in ("T15", "T16"):
+            tree = AwaitViaLocal().visit(tree)
         ast.fix_missing_locations(tree)
         out = ast.unparse(tree)
         compile(out, p, "exec")
@@ -143,7 +213,7 @@ def transform(root, which):
 
 def main():
     bad = 0
-    for which in sys.argv[1:] or ["T1", "T2", "T3", "T4", "T5", "T6", "T7", "T8", "T9", "T10"]:
+    for which in sys.argv[1:] or ["T1", "T2", "T3", "T4", "T5", "T6", "T7", "T8", "T9", "T10", "T11", "T12", "T13", "T14", "T15", "T16"]:
         tmp = tempfile.mkdtemp(prefix="tpsa-preserve-")
         try:
             shutil.copytree("/repo/src", os.path.join(tmp, "src"), ignore=shutil.ignore_patterns("__pycache__", "*.egg-info"))
